@@ -25,9 +25,6 @@ type Case struct {
 }
 
 func check(c Case, o *vf.Obs) error {
-	if c.NbMax != 0 && c.NbMax <= c.N {
-		c.NbMax = c.N + 1
-	}
 	n := c.N
 	if c.Entry == "slice" {
 		n = oracle.MaxVar(c.Clauses)
@@ -135,11 +132,13 @@ func check(c Case, o *vf.Obs) error {
 func config(t *rapid.T, c *Case) {
 	c.Entry = rapid.SampledFrom([]string{"slicenb", "cnf", "slice"}).Draw(t, "entry")
 	c.Buffered = rapid.Bool().Draw(t, "buffered")
-	switch rapid.IntRange(0, 2).Draw(t, "nbmaxSel") {
+	switch rapid.IntRange(0, 3).Draw(t, "nbmaxSel") {
 	case 1:
 		c.NbMax = c.N + 1
 	case 2:
 		c.NbMax = c.N + 8
+	case 3:
+		c.NbMax = rapid.IntRange(2, 12).Draw(t, "tinyLimit")
 	}
 }
 
@@ -178,7 +177,7 @@ func genRestart(t *rapid.T) Case {
 }
 
 func init() {
-	tail := "; solved with certificate generation on (channel buffered or consumed concurrently) x learned-clause limit {default, n+1, n+8} and again with it off; Unsat: each line RUP w.r.t. formula + earlier lines and the empty clause RUP-derivable at the end, by an independent checker on literal sets; Sat: each line a consequence (truth table n<=20, else RUP or DPLL entailment), same verdict and valid models with certification on and off; non-trivial = Unsat, not decided at parse time, >=1 non-empty certificate line"
+	tail := "; solved with certificate generation on (channel buffered or consumed concurrently) x learned-clause limit {default, 2..12, n+1, n+8} and again with it off; Unsat: each line RUP w.r.t. formula + earlier lines and the empty clause RUP-derivable at the end, by an independent checker on literal sets; Sat: each line a consequence (truth table n<=20, else RUP or DPLL entailment), same verdict and valid models with certification on and off; non-trivial = Unsat, not decided at parse time, >=1 non-empty certificate line"
 	vf.Register(
 		vf.Sub[Case]{Name: "small", Quick: 12000, Thorough: 150000, Gen: genSmall, Check: check, Floor: 0.05,
 			Rule: "CNF n<=10 with duplicate literals, tautologies, units, empty clauses" + tail},
